@@ -47,9 +47,11 @@ WA, WB, WC = 48, 32, 1240
 WRA, WRK = 40, 120
 
 
-def tla_cfg(mode: str, lim: Limits, *, until_eof: bool = False, with_body: bool = True) -> dict:
+def tla_cfg(mode: str, lim: Limits, *, until_eof: bool = False, with_body: bool = True,
+            decode: bool = False, expect: Sequence[bytes] = ()) -> dict:
     return {"mode": mode, "lax": mode == "response", "maxLine": lim.max_line, "maxField": lim.max_field,
             "maxHeaders": lim.max_headers, "untilEof": bool(until_eof), "withBody": bool(with_body),
+            "bodyOpaque": bool(decode), "expect": [list(b) for b in expect],
             "limit": min(lim.limit, 2 ** 30), "wA": WA, "wB": WB, "wC": WC, "wRA": WRA, "wRK": WRK}
 
 
@@ -171,7 +173,7 @@ class ParserRun:
                  "meter", "dead", "hang", "fed_eof")
 
     def __init__(self, mode: str, lim: Limits, *, until_eof: bool = False, with_body: bool = True,
-                 meter: Optional[WorkMeter] = None) -> None:
+                 meter: Optional[WorkMeter] = None, decode: bool = False) -> None:
         from aiohttp.base_protocol import BaseProtocol
         from aiohttp import http_parser as hp
 
@@ -192,11 +194,11 @@ class ParserRun:
         if mode == "request":
             self.parser = req_cls(self.proto, loop, lim.limit, max_line_size=lim.max_line,
                                   max_field_size=lim.max_field, max_headers=lim.max_headers,
-                                  auto_decompress=False)
+                                  auto_decompress=decode)
         else:
             self.parser = resp_cls(self.proto, loop, lim.limit, max_line_size=lim.max_line,
                                    max_field_size=lim.max_field, max_headers=lim.max_headers,
-                                   auto_decompress=False, read_until_eof=until_eof,
+                                   auto_decompress=decode, read_until_eof=until_eof,
                                    response_with_body=with_body)
         self.proto._parser = self.parser
         self.msgs: List[list] = []     # [msg, payload, bytearray body, set chunk ends]
@@ -211,22 +213,26 @@ class ParserRun:
         self.fed_eof = False
 
     # -- retained bytes (C10): incomplete line + lines of an incomplete header/trailer block
-    def _retained(self) -> Tuple[int, int]:
+    def _retained(self) -> Tuple[int, int, int]:
         p = self.parser
         tail = len(getattr(p, "_tail", b"") or b"")
-        lines = sum(len(x) for x in (getattr(p, "_lines", None) or ()))
+        ls = getattr(p, "_lines", None) or ()
+        lines = sum(len(x) for x in ls)
+        n = len(ls)
         pp = getattr(p, "_payload_parser", None)
         if pp is not None:
             tail += len(getattr(pp, "_chunk_tail", b"") or b"")
-            lines += sum(len(x) for x in (getattr(pp, "_trailer_lines", None) or ()))
-        return tail, lines
+            ts = getattr(pp, "_trailer_lines", None) or ()
+            lines += sum(len(x) for x in ts)
+            n += len(ts)
+        return tail, lines, n
 
     def _feed(self, data: bytes) -> None:
         if self.dead:
             return
         meter = self.meter
         if meter is not None:
-            t0, l0 = self._retained()
+            t0, l0, _n0 = self._retained()
             w0 = meter.count[0]
         raised = 0
         try:
@@ -239,8 +245,8 @@ class ParserRun:
             raised = 1
             out, upgraded, tail = (), False, b""
         if meter is not None:
-            t1, l1 = self._retained()
-            self.calls.append([len(data), t0 + l0, t1, l1, meter.count[0] - w0, raised])
+            t1, l1, n1 = self._retained()
+            self.calls.append([len(data), t0 + l0, t1, l1, meter.count[0] - w0, raised, n1])
         for m, p in out:
             self.msgs.append([m, p, bytearray(), set()])
         if upgraded:
@@ -350,8 +356,8 @@ def event_from_key(key: tuple) -> dict:
 
 
 def run_parser(mode: str, data: bytes, cuts: Sequence[int], lim: Limits, *, until_eof: bool = False,
-               with_body: bool = True, meter: Optional[WorkMeter] = None) -> ParserRun:
-    r = ParserRun(mode, lim, until_eof=until_eof, with_body=with_body, meter=meter)
+               with_body: bool = True, meter: Optional[WorkMeter] = None, decode: bool = False) -> ParserRun:
+    r = ParserRun(mode, lim, until_eof=until_eof, with_body=with_body, meter=meter, decode=decode)
     r.run(data, cuts)
     return r
 
@@ -574,7 +580,9 @@ class Group:
     MAX_CUTSETS = 4
 
     def __init__(self, mode: str, data: bytes, lim: Limits, *, until_eof: bool = False, with_body: bool = True,
-                 src: str = "", label: str = "") -> None:
+                 src: str = "", label: str = "", decode: bool = False, expect: Sequence[bytes] = ()) -> None:
+        self.decode = decode          # auto-decompression on: payloads hold decoded bytes
+        self.expect = list(expect)    # plain text of the bodies the generator compressed
         self.mode = mode
         self.data = data
         self.lim = lim
@@ -602,7 +610,7 @@ class Group:
 
     def parse(self, cuts: Sequence[int], meter: Optional[WorkMeter] = None) -> ParserRun:
         r = run_parser(self.mode, self.data, cuts, self.lim, until_eof=self.until_eof, with_body=self.with_body,
-                       meter=meter)
+                       meter=meter, decode=self.decode)
         k = r.key()
         if meter is not None:
             calls = r.calls
@@ -628,7 +636,8 @@ class Group:
         return ev
 
     def trace(self) -> dict:
-        cfg = tla_cfg(self.mode, self.lim, until_eof=self.until_eof, with_body=self.with_body)
+        cfg = tla_cfg(self.mode, self.lim, until_eof=self.until_eof, with_body=self.with_body,
+                      decode=self.decode, expect=self.expect)
         return {"cfg": cfg, "src": self.src, "label": self.label, "stream": list(self.data),
                 "events": [self.outcomes[k] for k in self.order], "nruns": self.nruns}
 
@@ -663,6 +672,7 @@ def judge_groups(ctx: Any, groups: List[Group], prop: str, label: str) -> Dict[s
             ctx.violation(name, f"{name} [{g.mode}]",
                           {"stream": list(g.data), "mode": g.mode, "limits": list(g.lim.key()),
                            "until_eof": g.until_eof, "with_body": g.with_body, "cuts": cuts,
+                           "decode": g.decode, "expect": [list(b) for b in g.expect],
                            "kind": ev["kind"] if ev else "group", "label": g.label, "src": g.src,
                            "allruns": allruns if ev is None else [], "meter": metered}, "trace")
         if not v.ok:
@@ -674,7 +684,8 @@ def judge_groups(ctx: Any, groups: List[Group], prop: str, label: str) -> Dict[s
             allcuts = [e["cutsets"][0] for e in t["events"] if e["cutsets"]]
             ctx.violation(clause, f"{clause} [{g.mode}] {g.label}",
                           {"stream": list(g.data), "mode": g.mode, "limits": list(g.lim.key()),
-                           "until_eof": g.until_eof, "with_body": g.with_body, "cuts": cuts, "allcuts": allcuts,
+                           "until_eof": g.until_eof, "with_body": g.with_body, "cuts": cuts,
+                           "decode": g.decode, "expect": [list(b) for b in g.expect], "allcuts": allcuts,
                            "allruns": allruns, "meter": metered,
                            "kind": ev["kind"] if ev else "group", "label": g.label, "src": g.src,
                            "drift": [list(x) for x in (drift or ())]}, "trace")
@@ -686,7 +697,8 @@ def replay_detail(ctx: Any, detail: dict) -> int:
     lim = Limits(*detail["limits"])
     data = bytes(detail["stream"])
     g = Group(detail["mode"], data, lim, until_eof=detail.get("until_eof", False),
-              with_body=detail.get("with_body", True), src="replay", label=detail.get("label", ""))
+              with_body=detail.get("with_body", True), src="replay", label=detail.get("label", ""),
+              decode=detail.get("decode", False), expect=[bytes(b) for b in detail.get("expect", [])])
     kind = detail.get("kind", "parse")
     runs = [(k, c) for k, c in (detail.get("allruns") or [])]
     if not runs:
@@ -738,7 +750,8 @@ def request_corpus(rng: Any, n_valid: int, per_class: Optional[int], n_bytes: in
         data = G.render(parts)
         yield "valid", "valid", data
         for cls in (classes or G.REQUEST_CLASSES):
-            for label, b in G.mutate_class(parts, cls, rng, per_class=per_class):
+            pc = None if per_class is None else per_class * G.CLASS_WEIGHT.get(cls, 1)
+            for label, b in G.mutate_class(parts, cls, rng, per_class=pc):
                 yield "mutation", label, b
         for label, b in G.random_byte_mutations(data, rng, n_bytes):
             yield "bytes", label, b
@@ -754,7 +767,8 @@ def response_corpus(rng: Any, n_valid: int, per_class: Optional[int], n_bytes: i
         data = G.render(parts)
         yield "valid", "valid", data, opts
         for cls in G.RESPONSE_CLASSES:
-            for label, b in G.mutate_class(parts, cls, rng, per_class=per_class):
+            pc = None if per_class is None else per_class * G.CLASS_WEIGHT.get(cls, 1)
+            for label, b in G.mutate_class(parts, cls, rng, per_class=pc):
                 yield "mutation", label, b, opts
         for label, b in G.random_byte_mutations(data, rng, n_bytes):
             yield "bytes", label, b, opts
